@@ -5,42 +5,49 @@ From V Require Import Base.Sched Proto.SrThunkDefs Proto.SrThunkProofs.
 Import ListNotations.
 Import SrThunk.
 
-Theorem C10_srthunk_exactly_one_resumer : forall sched : list nat,
-  let s := fst (run step sched (init, [])) in
+Theorem C10_srthunk_exactly_one_resumer : forall (k : nat) (sched : list nat),
+  let s := fst (run step sched (init k, [])) in
   (length (resumed s) <= 1)%nat /\ (quiescent s = true -> length (resumed s) = 1%nat).
 Proof. exact exactly_one_resumer. Qed.
 Print Assumptions C10_srthunk_exactly_one_resumer.
 
 (* never before the task completed, nor before a started deferred stop request ran *)
-Theorem C10_srthunk_not_resumed_early : forall sched : list nat,
-  let s := fst (run step sched (init, [])) in
+Theorem C10_srthunk_not_resumed_early : forall (k : nat) (sched : list nat),
+  let s := fst (run step sched (init k, [])) in
   resumed s <> [] -> cp_done s = true /\ (cb s = CbIdle \/ (cb s = CbDone /\ ds_done s = true)).
 Proof. exact not_resumed_early. Qed.
 Print Assumptions C10_srthunk_not_resumed_early.
 
 (* the "fetch_add read zero" branch of the callback is dead: the callback is deregistered before the completion
    decrements *)
-Theorem C10_srthunk_bail_unreachable : forall sched : list nat, cb (fst (run step sched (init, []))) <> CbBail.
+Theorem C10_srthunk_bail_unreachable : forall (k : nat) (sched : list nat), cb (fst (run step sched (init k, []))) <> CbBail.
 Proof. exact bail_unreachable. Qed.
 Print Assumptions C10_srthunk_bail_unreachable.
 
-Theorem C10_srthunk_trace_roots : forall sched : list nat,
-  let c := run step sched (init, []) in
+Theorem C10_srthunk_trace_roots : forall (k : nat) (sched : list nat),
+  let c := run step sched (init k, []) in
   length (filter is_root (snd c)) = length (resumed (fst c)).
 Proof. exact trace_roots. Qed.
 Print Assumptions C10_srthunk_trace_roots.
 
+(* whoever resumes, what is resumed is the continuation for the body's OWN result (k = 0 value, 1 error, 2 done): a
+   deferred stop request that finishes last resumes whoToContinue_ as the completion left it, never "done" of its own *)
+Theorem C10_srthunk_resumes_own_result : forall (k : nat) (sched : list nat),
+  Forall (fun e => match e with ERoot x => x = Some k | _ => True end) (snd (run step sched (init k, []))).
+Proof. exact resumes_own_result. Qed.
+Print Assumptions C10_srthunk_resumes_own_result.
+
 (* callback first, completion next (does not resume), deferred stop last (resumes) *)
 Example ex_stop_then_complete :
-  let c := run step [0; 0; 2; 1]%nat (init, []) in
-  snd c = [ERc false 1 2; EEnq; ERc true 2 1; ERc true 1 0; ERoot] /\ resumed (fst c) = [1%nat] /\ quiescent (fst c) = true.
+  let c := run step [0; 0; 2; 1]%nat (init 0%nat, []) in
+  snd c = [ERc false 1 2; EEnq; ERc true 2 1; ERc true 1 0; ERoot (Some 0%nat)] /\ resumed (fst c) = [1%nat] /\ quiescent (fst c) = true.
 Proof. vm_compute. repeat split; reflexivity. Qed.
 (* completion first: the callback is deregistered and never runs *)
 Example ex_complete_first :
-  let c := run step [2; 0; 1]%nat (init, []) in
-  snd c = [ERc true 1 0; ERoot] /\ resumed (fst c) = [2%nat] /\ quiescent (fst c) = true.
+  let c := run step [2; 0; 1]%nat (init 2%nat, []) in
+  snd c = [ERc true 1 0; ERoot (Some 2%nat)] /\ resumed (fst c) = [2%nat] /\ quiescent (fst c) = true.
 Proof. vm_compute. repeat split; reflexivity. Qed.
 (* the completion is blocked while the callback is between its fetch_add and its return *)
 Example ex_blocked :
-  step 2%nat (fst (run step [0]%nat (init, []))) = None.
+  step 2%nat (fst (run step [0]%nat (init 0%nat, []))) = None.
 Proof. vm_compute. reflexivity. Qed.
